@@ -150,6 +150,7 @@ def m2json(m):
     return {"re": m.real.tolist(), "im": m.imag.tolist()}
 
 
+UDICT_FORMS = ("create_dict/tensor", "create_dict/list", "plain")  # how the caller built the `unitary_dict=` argument
 EXACT_POOL = {  # unitaries with entries in {0, +-1, +-i}: can be registered as nested lists of ints
     "N": np.array([[0, 1], [1, 0]], dtype=complex), "P": np.array([[1, 0], [0, 1j]], dtype=complex),
     "W": np.array([[0, -1j], [1j, 0]], dtype=complex), "V": np.array([[0, 1j], [1, 0]], dtype=complex),
@@ -912,6 +913,7 @@ def _gen_cases(ctx, thorough):
     rng = ctx.rng
     ns = [1, 2, 3, 4] if thorough else [1, 2, 3]
     reps = 6 if thorough else 1
+    ud_off, ud_k = rng.randrange(len(UDICT_FORMS)), 0
     for n in ns:
         N = 2 ** n
         # (x-packages) the last two variants: a state constructed with `unitary_dict=` holding user-registered letters (and possibly an
@@ -922,7 +924,7 @@ def _gen_cases(ctx, thorough):
                 s = gen_state(rng, kind, n, scale)
                 alphabet = "XYZ"
                 if ud:
-                    s["udict_form"] = rng.choice(["create_dict/tensor", "create_dict/tensor", "create_dict/list", "plain"])
+                    s["udict_form"] = UDICT_FORMS[(ud_off + ud_k) % len(UDICT_FORMS)]; ud_k += 1  # every form in every run
                     s["udict"] = gen_udict(rng, exact=s["udict_form"] == "create_dict/list")
                     alphabet = "XYZ" + "".join(sorted(k for k in s["udict"] if k not in "XYZ"))
                 st = make_state(s)
